@@ -14,10 +14,10 @@ import subprocess
 
 META = dict(
     id="C17",
-    specs=["SecureStream.tla", "SecureStreamMC.tla", "SecureStreamTrace.tla"],
+    specs=["SecureStream.tla", "SecureStreamMC.tla", "SecureStreamTrace.tla", "TlsImpl.tla", "TlsImplSim.tla"],
     technique="TLA+ spec of the secure byte stream as seen by the two applications and the two underlying transports (TLC exhaustive over bounded write/close/delivery interleavings) + TLC trace validation of real TLSMemoryBIOFactory client/server pairs (real OpenSSL) under random schedules of writes before/during/after the handshake, producers, transport back-pressure, segmentation of the encrypted streams, clock ticks and loseConnection by either side at any point",
     level_text="TLC checks on the property-level specification that an application only ever receives a prefix of what its peer wrote before the peer's loseConnection, at most one connectionLost, no close without a loseConnection, and the quiescence clauses (exactly one connectionLost each and both transports closed once somebody closed; a side that did not itself close has received everything); every recorded execution of the real TLS client/server pair is validated by TLC as a behaviour of that specification with every logged field matched.",
-    level_note="Trusted: TLC, OpenSSL 3 / pyOpenSSL 23 (under /usr/bin/python3.11, not the repo's venv), the adapter's in-memory transports (a transport asked to close finishes only when the scheduler says so; bytes already written stay deliverable) and content-offset projection. The specification is the property level only (no TlsImpl refinement layer was built); where the statement is ambiguous about a side that itself closed, only the prefix clause is demanded of it (documented in notes/C17.md). Pull producers are not driven (twisted wraps them with the global cooperator).",
+    level_note="Trusted: TLC, OpenSSL 3 / pyOpenSSL 23 (under /usr/bin/python3.11, not the repo's venv), the adapter's in-memory transports (a transport asked to close finishes only when the scheduler says so; bytes already written stay deliverable) and content-offset projection. The Impl layer (TlsImpl.tla) models only the sending side of Twisted's TLS wrapper with OpenSSL as an environment and is bound to the code by replaying TLC-generated behaviours, not by a TLC refinement proof against SecureStream; where the statement is ambiguous about a side that itself closed, only the prefix clause is demanded of it (documented in notes/C17.md). Pull producers are not driven (twisted wraps them with the global cooperator).",
     design_ref="2.5 C17",
     rule="case = schedule of write/writeSequence/loseConnection/producer/back-pressure/deliver(k)/tick/transport-close operations on the two sides; distinct = hash of the event sequence; non-trivial = at least two event kinds",
 )
@@ -35,8 +35,7 @@ def run_plans(ctx, plans):
     env = dict(os.environ)
     env["PYTHONPATH"] = os.path.join(repo, "src") + ":" + deps
     env["PYTHONHASHSEED"] = "0"
-    # byte-code cache for python3.11 outside /repo (a cache only: nothing depends on it)
-    env["PYTHONPYCACHEPREFIX"] = os.path.join(core.VERIF, ".work", "pycache-c17")
+    env["PYTHONDONTWRITEBYTECODE"] = "1"       # never write python3.11 byte code into /repo
     env.pop("PYTHONHOME", None)
     nproc = max(1, min(int(os.environ.get("VERIF_SHARDS") or 8), 8, len(plans) // 400 + 1))
     chunks = [plans[i::nproc] for i in range(nproc)]
@@ -187,6 +186,63 @@ def mutate(t, rng):
     return t
 
 
+UNIT = 20000        # one TlsImpl model unit in bytes (MAX_BUFFER_SIZE = 64000 = 3.2 units)
+
+
+def impl_layer(ctx):
+    """Impl layer (specs/TlsImpl.tla): the sending side of BufferingTLSTransport/TLSMemoryBIOProtocol as coded, with
+    OpenSSL as environment.  TLC checks it exhaustively (order, nothing after loseConnection, close_notify after the
+    data, close when done); two deliberately broken variants must fail (vacuity); behaviours generated by TLC from the
+    model are replayed on the real TLS pair: the real executions are validated by the SecureStream trace spec like all
+    others, and the amount of data the model says went out is compared with what the real peer received (a
+    difference is model drift, reported as impl_drift, never a violation)."""
+    from harness.core import MachineryError
+    r = ctx.mc("TlsImpl", "TlsImpl.cfg")
+    if not r.ok:
+        raise MachineryError("TlsImpl (as coded) violates a sender clause: %s\n%s" % (r.error, "".join(r.cex[-3:])[:3000]))
+    ctx.require_actions("TlsImpl", ["Write", "Tick", "Lose", "HandshakeDone", "PeerClose", "Reg", "Unreg"])
+    for cfgname in ("TlsImplNoFlush.cfg", "TlsImplReversed.cfg"):
+        v = ctx.mc("TlsImpl", cfgname, must_pass=False, coverage=False, label="vacuity: broken variant must violate an invariant")
+        if v.ok or v.kind != "invariant":
+            raise MachineryError("vacuity: %s does not violate the TlsImpl invariants (%s)" % (cfgname, v.kind))
+    behs = ctx.simulate("TlsImplSim", "TlsImplSim.cfg", num=ctx.pick(300, 6000), depth=16)
+    plans, predicted = [], []
+    for b in behs:
+        ops = []
+        for h in b["hist"]:
+            e = h["e"]
+            if e == "write":
+                ops.append(["write", 0, h["n"] * UNIT])
+            elif e == "tick":
+                ops.append(["tick"])
+            elif e == "lose":
+                ops.append(["lose", 0])
+            elif e == "handshake":
+                ops += [["deliver", 0, 0], ["deliver", 1, 0], ["deliver", 0, 0], ["deliver", 1, 0]]
+            elif e == "peerclose":
+                ops += [["lose", 1], ["deliver", 1, 0]]
+            elif e == "reg":
+                ops.append(["reg", 0, []])
+            elif e == "unreg":
+                ops.append(["unreg", 0])
+        ops.append(["quiesce"])
+        plans.append(dict(ops=ops, variant="buffered", impl_beh=True))
+        predicted.append(b["units"] * UNIT)
+    traces = run_plans(ctx, plans) if plans else []
+    drift = 0
+    for t, want in zip(traces, predicted):
+        got = sum(e["n"] for e in t["ev"] if e["e"] == "data" and e["p"] == 1)
+        if got != want:
+            drift += 1
+            if drift <= 3:
+                ctx.log("TlsImpl drift: model says %d bytes out, real peer received %d: %s" % (want, got, json.dumps(t["plan"]["ops"])[:400]))
+    ctx.impl_drift = drift
+    ctx.extra["impl_behaviours_replayed"] = len(traces)
+    ctx.extra["impl_behaviours_not_reproduced"] = drift
+    return traces
+
+
+
 def report(ctx, traces, rej):
     for x in rej[:40]:
         t = traces[x.idx]
@@ -203,9 +259,10 @@ def run(ctx):
     if not r.ok:
         raise MachineryError("SecureStream spec violates its own invariants: " + r.error)
     ctx.require_actions("SecureStreamMC", ["MCWrite", "MCLose", "Reg", "Unreg", "XClose", "Eof", "Hs", "AppData", "Lost", "TClose", "Quiesce"])
+    impl_traces = impl_layer(ctx)
     n = ctx.pick(1500, 40000)
     plans = [gen_plan(ctx.rng) for _ in range(n)]
-    traces = run_plans(ctx, plans)
+    traces = impl_traces + run_plans(ctx, plans)
     ctx.log("recorded %d real executions, %d events" % (len(traces), sum(len(t["ev"]) for t in traces)))
     ctx.note_traces(traces)
     lean = [{"cfg": t["cfg"], "ev": t["ev"]} for t in traces]
